@@ -1,4 +1,5 @@
 import inspect
+import threading
 from typing import Callable, Optional, Dict, Any, TypeVar, List
 from .datastructures import ImmutableDict
 from .functional import represent, multi, distinct_add
@@ -18,6 +19,8 @@ class TypeRegistry:
                  ):
         self._registry = []
         self._cache = {}
+        # registrations and memo fills are serialised; memo hits stay lock-free
+        self._lock = threading.RLock()
 
         self.name = name
         self.cache = cache
@@ -75,10 +78,11 @@ class TypeRegistry:
         def decorator(f):
             if not self.validator(f):
                 raise TypeError(f'Invalid register target: {f}, must pass <{self.validator}> validate')
-            self._registry.insert(0, (detector, f, priority))
-            self._registry.sort(key=lambda v: -v[2])
-            # a new registration may change the resolution of types that are already memoised
-            self._cache.clear()
+            with self._lock:
+                self._registry.insert(0, (detector, f, priority))
+                self._registry.sort(key=lambda v: -v[2])
+                # a new registration may change the resolution of types that are already memoised
+                self._cache.clear()
             return f
 
         # before runtime, type will be compiled and applied
@@ -92,16 +96,20 @@ class TypeRegistry:
         if self.shortcut and hasattr(t, self.shortcut) and self.validator(getattr(t, self.shortcut)):
             # this type already got a callable transformer, do not resolve then
             return getattr(t, self.shortcut)
-        if self.cache and t in self._cache:
-            return self._cache[t]
-        for detector, trans, priority in self._registry:
-            try:
-                if detector(t):
-                    if self.cache:
-                        self._cache[t] = trans
-                    return trans
-            except (TypeError, ValueError):
-                continue
+        if self.cache:
+            cached = self._cache.get(t)
+            if cached is not None:
+                return cached
+        with self._lock:
+            # a fill must not straddle a registration: it would memoise the outdated answer after the reset
+            for detector, trans, priority in self._registry:
+                try:
+                    if detector(t):
+                        if self.cache:
+                            self._cache[t] = trans
+                        return trans
+                except (TypeError, ValueError):
+                    continue
         if self.base:
             # default to base
             return self.base.resolve(t)
